@@ -47,7 +47,9 @@ RULE = ("corr: 2-6 bands, sorted dyadic energies with exact and sub-threshold de
         "systems (2-6 Wannier functions, spin-doubled ones included), random/special k, random band partitions, "
         "run() with Efermi grids ending above all bands, the lowest Fermi level placed between / at the members of an "
         "exact (spin-doubled or tuned) or near-degenerate (2e-5 .. 0.02, degen_thresh 1e-4 and 0.05) multiplet of a grid "
-        "k-point with CumDOS checked in the same run, Haldane-type models in both phases.  non-trivial = at least "
+        "k-point with CumDOS checked in the same run, calculator-reuse histories (the same AHC/CumDOS/DOS objects across "
+        "2-3 run() calls on embeddings with different cell volumes and grids with different NKFFT, each compared with "
+        "fresh calculators and with the Chern reference), Haldane-type models in both phases.  non-trivial = at least "
         "one block has a non-zero internal curvature (sum rule) / the model is gapped with margin (Chern); "
         "distinct = distinct (kind, seed, parameters)")
 
@@ -548,7 +550,62 @@ def case_chern(ctx, case):
         ctx.fail(f"in-plane components of the AHC vector of a 2D model are not zero: {d.tolist()}", dict(case, ahc=d))
 
 
-RUNNERS = {"sumk": case_sumrule_k, "ahc": case_ahc_above, "chern": case_chern, "sea": case_sea_edge}
+def case_reuse(ctx, case):
+    """history: the SAME calculator objects are used in several run() calls on embeddings of one 2D model with different
+    cell volumes and on grids with different NKFFT; every result must equal that of fresh calculators and the
+    quantised value"""
+    from ..wbsys import wb
+    import wannierberri.models as M
+    from wannierberri.calculators import static as S
+    from scipy.constants import elementary_charge as e, h
+    p = dict(delta=case["delta"], hop1=case["hop1"], hop2=case["hop2"], phi=case["phi"])
+    with quiet():
+        base = (wb.system.System_PythTB(M.Haldane_ptb(**p)) if case["builder"] == "ptb"
+                else wb.system.System_TBmodels(M.Haldane_tbm(**p)))
+    Hk = haldane_Hk(**p)
+    Cref, gap = fhs_chern(Hk, 1, n=24)
+    Cint = int(round(Cref))
+    n = 24
+    ee = np.array([np.linalg.eigvalsh(Hk(a / n, b / n)) for a in range(n) for b in range(n)])
+    if gap < 0.25 or abs(Cref - Cint) > 1e-6 or ee[:, 1].min() - ee[:, 0].max() < 0.2:
+        ctx.count("oracle.reuse.skipped_small_gap")
+        return
+    ef = 0.5 * (ee[:, 0].max() + ee[:, 1].min())
+    Efs = np.array([ef, float(ee.max()) + 1.0])
+    Egrid = np.linspace(float(ee.min()) - 0.5, float(ee.max()) + 1.0, 21)
+
+    def make():
+        return {"ahc": S.AHC(Efermi=Efs), "cumdos": S.CumDOS(Efermi=Efs), "dos": S.DOS(Efermi=Egrid),
+                "ahc_int": S.AHC(Efermi=Efs, kwargs_formula={"external_terms": False})}
+    shared = make()
+    ctx.case(signature=("reuse", case["builder"], tuple(sorted(p.items())), repr(case["steps"])), nontrivial=len(case["steps"]) > 1)
+    for istep, (lat, nkfft, mult) in enumerate(case["steps"]):
+        with quiet():
+            s = embed_2d(base, lat) if lat is not None else base
+            NK = nkfft * mult
+            res = []
+            for calcs in (shared, make()):
+                grid = wb.Grid(s, NK=(NK, NK, 1), NKFFT=(nkfft, nkfft, 1))
+                res.append(wb.run(s, grid=grid, calculators=calcs, parallel=False, print_Kpoints=False, symmetrize=False))
+        L = np.array(s.real_lattice)
+        c_ang = abs(np.linalg.det(L)) / np.linalg.norm(np.cross(L[0], L[1]))
+        info = dict(case, step=istep, lattice=L, NKFFT=nkfft, NK=NK, cell_volume=float(s.cell_volume))
+        for name in res[0].results:
+            a, b = res[0].results[name].data, res[1].results[name].data
+            if np.abs(a - b).max() > 1e-10 * (np.abs(b).max() + 1e-30):
+                ctx.fail(f"step {istep}: {name} from a calculator object already used in earlier run() calls differs from a "
+                         f"fresh calculator's: ratio {np.abs(a).max() / (np.abs(b).max() + 1e-300):.6f} (cell volume "
+                         f"{s.cell_volume:.4f}, NKFFT {nkfft})", dict(info, calculator=name, reused=a, fresh=b))
+        val = res[0].results["ahc"].data[0][2] * c_ang * 1e-10 / (e ** 2 / h)
+        if abs(val - (-Cint)) > 0.02:
+            ctx.fail(f"step {istep}: AHC_z*c/(e^2/h) = {val:.5f} from a reused AHC calculator, Chern number {Cint} "
+                     f"(expected {-Cint})", dict(info, ahc=res[0].results["ahc"].data))
+        cum = res[0].results["cumdos"].data
+        if abs(cum[0] - 1) > 1e-9 or abs(cum[1] - 2) > 1e-9:
+            ctx.fail(f"step {istep}: CumDOS from a reused calculator is {cum.tolist()} (expected [1, 2])", dict(info, cumdos=cum))
+
+
+RUNNERS = {"reuse": case_reuse, "sumk": case_sumrule_k, "ahc": case_ahc_above, "chern": case_chern, "sea": case_sea_edge}
 
 
 def gen_lattice_2d(rng):
@@ -602,6 +659,15 @@ def oracle(ctx, scale):
                       NK=36, NKFFT=6, lattice=gen_lattice_2d(rng)))
     for _ in range(ctx.n(4, 40) * scale):
         cases.append(gen_chern_case(rng))
+    for _ in range(ctx.n(2, 10) * scale):
+        hop2 = rng.choice([0.15, 0.2, -0.15])
+        phi = rng.choice([np.pi / 2, -np.pi / 2, 0.7])
+        crit = 3 * np.sqrt(3) * abs(hop2 * np.sin(phi))
+        steps = []
+        for _i in range(rng.randint(2, 3)):
+            steps.append((gen_lattice_2d(rng) if rng.random() < 0.75 else None, rng.choice([4, 6, 9]), rng.choice([4, 6])))
+        cases.append(dict(kind="reuse", builder=rng.choice(["ptb", "tbm"]), delta=float(crit * rng.choice([0.0, 0.3, 2.0])),
+                          hop1=-1.0, hop2=float(hop2), phi=float(phi), steps=steps))
     for case in cases:
         ctx.count(f"oracle.{case['kind']}")
         with ctx.attempt(f"{case['kind']} case", case):
@@ -617,7 +683,8 @@ def replay(ctx, case):
             keys = {"sumk": ("kind", "seed", "nw", "doubled"),
                     "ahc": ("kind", "seed", "nw", "doubled", "tetra", "kramers", "degen_thresh"),
                     "chern": ("kind", "seed", "builder", "delta", "hop1", "hop2", "phi", "perturb", "NK", "NKFFT", "lattice"),
-                    "sea": ("kind", "seed", "nw", "m", "delta", "doubled", "kramers", "where", "degen_thresh")}[c["kind"]]
+                    "sea": ("kind", "seed", "nw", "m", "delta", "doubled", "kramers", "where", "degen_thresh"),
+                    "reuse": ("kind", "builder", "delta", "hop1", "hop2", "phi", "steps")}[c["kind"]]
             cc = {k: c[k] for k in keys if k in c}
             print("replaying", cc)
             RUNNERS[c["kind"]](ctx, cc)
